@@ -274,6 +274,7 @@ func (x *Exec) mapUpdate(fr *Frame, st *State, in *ssa.MapUpdate) {
 	}
 	ms := x.eng.mapShape(in.Map.Type())
 	x.oblige(fr, st, "nil", "map:"+x.srcText(fr.fn, in.Pos(), isIndex), "assignment to entry in nil map", in.Pos(), Neq(mv.T, IntLit(0)), nil)
+	x.immutCheck(fr, st, typeKey(in.Map.Type()), mv.T, "map "+typeKey(in.Map.Type()), in.Pos())
 	k := x.mapKeyTerm(x.val(fr, in.Key), ms)
 	x.mapStore(st, ms, mv.T, k, x.val(fr, in.Value))
 }
